@@ -182,7 +182,11 @@ fn stmt_j(st: &syn::Stmt) -> J {
                 Some(i) => (expr_j(&i.expr), i.diverge.as_ref().map(|d| expr_j(&d.1)).unwrap_or(J::Null)),
                 None => (J::Null, J::Null),
             };
-            obj("Let", line(l), vec![("pat", pat_j(&l.pat)), ("init", init), ("else", els)])
+            let ty = match &l.pat {
+                syn::Pat::Type(t) => s(toks(&t.ty)),
+                _ => J::Null,
+            };
+            obj("Let", line(l), vec![("pat", pat_j(&l.pat)), ("ty", ty), ("init", init), ("else", els)])
         }
         syn::Stmt::Item(i) => obj("ItemStmt", line(i), vec![("item", item_j(i))]),
         syn::Stmt::Expr(e, semi) => obj("ExprStmt", line(e), vec![("expr", expr_j(e)), ("semi", J::Bool(semi.is_some()))]),
